@@ -8,3 +8,9 @@ pub(crate) mod common;
 
 #[path = "/verif/harness/c18_settings.rs"]
 pub(crate) mod c18_settings;
+
+#[path = "/verif/harness/c12_states.rs"]
+pub(crate) mod c12_states;
+
+#[path = "/verif/harness/c07_convert.rs"]
+pub(crate) mod c07_convert;
